@@ -162,7 +162,7 @@ func VP_C19_widths() {
 	vpCover("done")
 }
 
-var vpGlyphPool = []string{"b", "a", "space", "zero", "A"}
+var vpGlyphPool = []string{"+", "a", "b", "zero", "A"}
 
 // vpCheckGlyphList checks the list against the definition.
 func vpCheckGlyphList(list []string, glyphs map[string]bool, enc []string, numGlyphs int) {
@@ -229,7 +229,7 @@ func VP_C19_glyphlist() {
 		for i := range enc {
 			enc[i] = ".notdef"
 		}
-		names := []string{"a", "b", "missing", "zero"}
+		names := []string{"a", "+", "missing", "b"}
 		codes := []int{0, 65, 66, 255}
 		for k := 0; k < 2; k++ {
 			enc[codes[vpChoose("code"+vpDigitS(k), len(codes))]] = names[vpChoose("ename"+vpDigitS(k), len(names))]
